@@ -1,5 +1,6 @@
 import NirVerif.Lemmas.FileForm
 import NirVerif.Lemmas.EndToEnd
+import NirVerif.Lemmas.GraphBack
 import NirVerif.Properties.C13
 import NirVerif.Properties.C03
 
@@ -201,6 +202,224 @@ theorem leaf_native_roundtrip (version kind : String) (fields : List (String × 
     | none => rfl
     | some v => simp [hnative k v hl]
 
+/-! ## end to end for whole (flat) graphs -/
+
+def GenericKind (kind : String) : Prop :=
+  kind ∈ Generated.whitelist ∧ kind ≠ "NIRGraph" ∧ kind ≠ "Input" ∧ kind ≠ "Output" ∧ kind ≠ "Flatten"
+
+/-- the children the graph-level theorem covers: Input, Output, Flatten and every primitive with
+the generic dictionary form — i.e. every leaf primitive; empty metadata, no dictionary-valued
+fields -/
+inductive Supported : Node → Prop
+  | generic (kind : String) (fields : List (String × Val)) (it ot : Val) (hg : GenericKind kind)
+      (hnt : lookup "type" fields = none) (hnm : lookup "metadata" fields = none)
+      (hnd : ∀ k v, lookup k fields = some v → ∀ d, v ≠ .dict d) :
+      Supported (Node.mk kind fields it ot (.dict []) [] [])
+  | input (it ot s : Val) (hit : getItem it "input" = .ok s) (hs : ∀ d, s ≠ .dict d) :
+      Supported (Node.mk "Input" [] it ot (.dict []) [] [])
+  | output (it ot s : Val) (hot : getItem ot "output" = .ok s) (hs : ∀ d, s ≠ .dict d) :
+      Supported (Node.mk "Output" [] it ot (.dict []) [] [])
+  | flatten (fields : List (String × Val)) (it ot s : Val) (hit : getItem it "input" = .ok s) (hs : ∀ d, s ≠ .dict d)
+      (hnt : lookup "type" fields = none) (hnm : lookup "metadata" fields = none)
+      (hnit : lookup "input_type" fields = none)
+      (hnd : ∀ k v, lookup k fields = some v → ∀ d, v ≠ .dict d) :
+      Supported (Node.mk "Flatten" fields it ot (.dict []) [] [])
+
+/-- `n'` is what the reader rebuilds for the child `n`: the class constructor on the transported
+field values (generic primitives), resp. on the transported shape (Input / Output) -/
+inductive ChildBack : Node → Node → Prop
+  | generic (kind : String) (fields : List (String × Val)) (it ot : Val) (n' : Node)
+      (h : ∀ kw', (∀ k, lookup k kw' = (lookup k fields).bind backVal) → construct kind kw' = .ok n') :
+      ChildBack (Node.mk kind fields it ot (.dict []) [] []) n'
+  | input (it ot s : Val) (n' : Node) (hit : getItem it "input" = .ok s)
+      (h : ∀ s', backVal s = some s' → construct "Input" [("input_type", typeDict "input" s')] = .ok n') :
+      ChildBack (Node.mk "Input" [] it ot (.dict []) [] []) n'
+  | output (it ot s : Val) (n' : Node) (hot : getItem ot "output" = .ok s)
+      (h : ∀ s', backVal s = some s' → construct "Output" [("output_type", typeDict "output" s')] = .ok n') :
+      ChildBack (Node.mk "Output" [] it ot (.dict []) [] []) n'
+  | flatten (fields : List (String × Val)) (it ot s : Val) (n' : Node) (hit : getItem it "input" = .ok s)
+      (h : ∀ s' kw', backVal s = some s' →
+        (∀ k, lookup k kw' = if k = "input_type" then some (typeDict "input" s') else (lookup k fields).bind backVal) →
+        construct "Flatten" kw' = .ok n') :
+      ChildBack (Node.mk "Flatten" fields it ot (.dict []) [] []) n'
+
+/-- one supported child, from its dictionary form through its group back to a node -/
+theorem child_step (n : Node) (hsup : Supported n) (d : Val) (hd : toDict n = .ok d) :
+    ∃ kvs, d = .dict kvs ∧ kvs ≠ [] ∧
+      ∀ fuel fuel' items n', writeRecursiveFuel fuel' kvs [] = .ok items →
+        fromDictFuel (fuel + 1) (.dict (hdf2dict.hdf2dictItems items)) = .ok n' → ChildBack n n' := by
+  cases hsup with
+  | generic kind fields it ot hg hnt hnm hnd =>
+    obtain ⟨hw, h1, h2, h3, h4⟩ := hg
+    rw [C03.toDict_keys_generic kind fields it ot (.dict []) ⟨h1, h2, h3, h4⟩] at hd
+    cases hd
+    refine ⟨_, rfl, by simp, ?_⟩
+    intro fuel fuel' items n' hwr hrd
+    refine ChildBack.generic kind fields it ot n' ?_
+    intro kw' hkw
+    rw [← hrd]
+    exact (generic_child_back fuel fuel' kind fields hw ⟨h1, h2, h3, h4⟩ hnt hnm hnd kw' hkw items hwr).symm
+  | input it ot s hit hs =>
+    simp only [toDict, typeEntry, hit, bind, Except.bind, pure, Except.pure, List.nil_append] at hd
+    cases hd
+    refine ⟨_, rfl, by simp, ?_⟩
+    intro fuel fuel' items n' hwr hrd
+    refine ChildBack.input it ot s n' hit ?_
+    intro s' hb
+    rw [← hrd]
+    exact (io_child_back fuel fuel' "Input" "input_type" "input" (Or.inl ⟨rfl, rfl, rfl⟩) s s' hs hb items hwr).symm
+  | output it ot s hot hs =>
+    simp only [toDict, typeEntry, hot, bind, Except.bind, pure, Except.pure, List.nil_append] at hd
+    cases hd
+    refine ⟨_, rfl, by simp, ?_⟩
+    intro fuel fuel' items n' hwr hrd
+    refine ChildBack.output it ot s n' hot ?_
+    intro s' hb
+    rw [← hrd]
+    exact (io_child_back fuel fuel' "Output" "output_type" "output" (Or.inr ⟨rfl, rfl, rfl⟩) s s' hs hb items hwr).symm
+  | flatten fields it ot s hit hs hnt hnm hnit hnd =>
+    simp only [toDict, typeEntry, hit, bind, Except.bind, pure, Except.pure] at hd
+    cases hd
+    refine ⟨_, rfl, by simp, ?_⟩
+    intro fuel fuel' items n' hwr hrd
+    refine ChildBack.flatten fields it ot s n' hit ?_
+    intro s' kw' hb hkw
+    rw [← hrd]
+    exact (flatten_child_back fuel fuel' fields hnt hnm hnit hnd s s' hs hb kw' hkw items hwr).symm
+
+/-- **End to end for flat graphs**: for a graph whose children are leaf primitives of any of the
+17 classes (any number, any names the file accepts, any edge list — cycles,
+duplicates, self-loops; empty metadata), whenever `nir.write` succeeds and `nir.read` returns a
+graph, that graph has exactly the same edge list in the same order, empty metadata, the same set
+of node names (re-ordered: the file lists links by name), and under every name the node the class
+constructor builds from the transported field values of the original node (`ChildBack`). -/
+theorem graph_end_to_end (version : String) (children : Nodes) (edges : List Edge) (it ot : Val)
+    (hkeys : (children.map Prod.fst).Nodup)
+    (hsup : ∀ k n, lookup k children = some n → Supported n)
+    (f : H5) (hwr : write version (Node.mk "NIRGraph" [] it ot (.dict []) children edges) = .ok f)
+    (g' : Node) (hrd : read f = .ok g') :
+    ∃ cs, g' = mkGraph cs edges (.dict []) ∧ (cs.map Prod.fst).Perm (children.map Prod.fst) ∧
+      ∀ k n, lookup k children = some n → ∃ n', lookup k cs = some n' ∧ ChildBack n n' := by
+  -- the dictionary form of the graph
+  simp only [write, toDict, bind, Except.bind, pure, Except.pure] at hwr
+  cases hkids : toDict.toDictChildren children with
+  | error e => rw [hkids] at hwr; cases hwr
+  | ok kids =>
+  rw [hkids] at hwr
+  simp only at hwr
+  generalize hkvs : [("nodes", Val.dict kids), ("edges", edgesVal edges), ("metadata", Val.dict []),
+    ("type", Val.str "NIRGraph")] = kvsG at hwr
+  cases hnode : writeRecursiveFuel (Val.size (.dict kvsG) + 1) kvsG [] with
+  | error e => rw [hnode] at hwr; cases hwr
+  | ok node =>
+  rw [hnode] at hwr
+  simp only [Except.ok.injEq] at hwr
+  subst hwr
+  obtain ⟨hk1, hk2⟩ := toDictChildren_spec children kids hkids
+  -- what the writer stored
+  have hlk : ∀ k, lookup k kvsG = if k = "nodes" then some (.dict kids) else if k = "edges" then some (edgesVal edges)
+      else if k = "metadata" then some (.dict []) else if k = "type" then some (.str "NIRGraph") else none := by
+    intro k
+    rw [← hkvs]
+    simp only [lookup]
+    by_cases h1 : k = "nodes"
+    · subst h1; simp
+    · have e1 : ("nodes" == k) = false := by simpa using (Ne.symm h1)
+      simp only [e1, Bool.false_eq_true, if_false, h1]
+      by_cases h2 : k = "edges"
+      · subst h2; simp
+      · have e2 : ("edges" == k) = false := by simpa using (Ne.symm h2)
+        simp only [e2, Bool.false_eq_true, if_false, h2]
+        by_cases h3 : k = "metadata"
+        · subst h3; simp
+        · have e3 : ("metadata" == k) = false := by simpa using (Ne.symm h3)
+          simp only [e3, Bool.false_eq_true, if_false, h3]
+          by_cases h4 : k = "type"
+          · subst h4; simp
+          · have e4 : ("type" == k) = false := by simpa using (Ne.symm h4)
+            simp [e4, h4]
+  obtain ⟨fuelS, sub, hsub, hnodes⟩ := write_lookup_group _ kvsG [] node hnode "nodes" kids (by rw [hlk]; simp) (by simp)
+  obtain ⟨ds, hcds, hedges⟩ := write_lookup _ kvsG [] node hnode "edges" (edgesVal edges) (by rw [hlk]; simp) (by decide)
+    (by intro d hd; simp [edgesVal] at hd)
+  have htype : lookup "type" (hdf2dict.hdf2dictItems node) = some (.str "NIRGraph") :=
+    type_back _ kvsG node "NIRGraph" hnode (by rw [hlk]; simp)
+  have hmetaG : ∀ kv ∈ kvsG, kv.1 = "metadata" → kv.2 = .dict [] := by
+    intro kv hm hkm
+    rw [← hkvs] at hm
+    simp only [List.mem_cons, List.mem_nil_iff, or_false] at hm
+    rcases hm with rfl | rfl | rfl | rfl <;> first | rfl | simp at hkm
+  have hmetaNone : lookup "metadata" node = none := by
+    rw [write_skip_meta _ kvsG [] node hnode hmetaG]; rfl
+  have hotherN : ∀ k, k ≠ "type" → k ≠ "nodes" → k ≠ "edges" → lookup k node = none := by
+    intro k h1 h2 h3
+    by_cases hm : k = "metadata"
+    · rw [hm]; exact hmetaNone
+    · rw [write_no_extra _ kvsG [] node hnode k (by rw [hlk]; simp [h1, h2, h3, hm])]; rfl
+  have hnodupN : (node.map Prod.fst).Nodup := write_nodup _ kvsG [] node hnode List.nodup_nil
+  have hnodupS : (sub.map Prod.fst).Nodup := write_nodup _ kids [] sub hsub List.nodup_nil
+  -- the reader
+  simp only [Model.read, h5Get, lookup, beq_self_eq_true, if_true, bind, Except.bind, hdf2dict, fromDict] at hrd
+  generalize hD : hdf2dict.hdf2dictItems node = D at hrd htype
+  have hDn : lookup "nodes" D = some (.dict (hdf2dict.hdf2dictItems sub)) := by
+    rw [← hD, hdf2dict_lookup, hnodes]; simp [hdf2dict]
+  have hDe : lookup "edges" D = some (h5Load ds) := by
+    rw [← hD, hdf2dict_lookup, hedges]; simp [hdf2dict]
+  have hDnodup : (D.map Prod.fst).Nodup := by rw [← hD, hdf2dictItems_keys]; exact hnodupN
+  have hDother : ∀ k, k ≠ "type" → k ≠ "nodes" → k ≠ "edges" → lookup k D = none := by
+    intro k h1 h2 h3
+    rw [← hD, hdf2dict_lookup, hotherN k h1 h2 h3]; rfl
+  rw [fromDictFuel_graph _ D _ _ htype hDn hDe] at hrd
+  cases hcs : ((hdf2dict.hdf2dictItems sub).mapM fun (kv : String × Val) =>
+      (fromDictFuel (Val.depth (.dict D)) kv.2).map fun n => (kv.1, n)) with
+  | error e => rw [hcs] at hrd; cases hrd
+  | ok cs =>
+  rw [hcs] at hrd
+  have hdec : decodeEdges (h5Load ds) = .ok edges := by
+    have := edges_roundtrip edges
+    rw [hcds] at this
+    simpa using this
+  obtain ⟨bound, hb1, hb2⟩ := graph_bound D hDnodup hDother
+  simp only [Except.bind, hdec, hb1, hb2] at hrd
+  obtain ⟨hcs1, hcs2⟩ := mapM_children_spec _ _ cs hcs
+  have hcsnodup : (cs.map Prod.fst).Nodup := by rw [hcs1, hdf2dictItems_keys]; exact hnodupS
+  rw [insertAll_nil cs hcsnodup] at hrd
+  have hg' : g' = mkGraph cs edges (.dict []) := by cases hrd; rfl
+  -- every original child has its group
+  have hchild : ∀ k n, lookup k children = some n → ∃ kvs fuel'' items, toDict n = .ok (.dict kvs) ∧
+      writeRecursiveFuel fuel'' kvs [] = .ok items ∧ lookup k sub = some (.group items) ∧
+      (∀ fuel n', fromDictFuel (fuel + 1) (.dict (hdf2dict.hdf2dictItems items)) = .ok n' → ChildBack n n') := by
+    intro k n hl
+    obtain ⟨d, hd, hkd⟩ := hk2 k n hl
+    obtain ⟨kvs, rfl, hne, hstep⟩ := child_step n (hsup k n hl) d hd
+    obtain ⟨fuel'', items, hw, hs⟩ := write_lookup_group _ kids [] sub hsub k kvs hkd (fun h => hne h.2)
+    exact ⟨kvs, fuel'', items, hd, hw, hs, fun fuel n' h => hstep fuel fuel'' items n' hw h⟩
+  refine ⟨cs, hg', ?_, ?_⟩
+  · -- same set of names
+    rw [hcs1, hdf2dictItems_keys, ← hk1]
+    apply (List.perm_ext_iff_of_nodup hnodupS (by rw [hk1]; exact hkeys)).mpr
+    intro k
+    constructor
+    · intro hm
+      by_cases hk : k ∈ kids.map Prod.fst
+      · exact hk
+      · exfalso
+        have h1 := lookup_isSome_of_mem k sub hm
+        rw [write_no_extra _ kids [] sub hsub k (lookup_eq_none_of_not_mem k kids hk)] at h1
+        cases h1
+    · intro hm
+      rw [hk1] at hm
+      obtain ⟨n, hn⟩ := Option.isSome_iff_exists.mp (lookup_isSome_of_mem k children hm)
+      obtain ⟨kvs, fuel'', items, _, _, hs, _⟩ := hchild k n hn
+      exact (lookup_isSome_iff_mem k sub).mp (by rw [hs]; rfl)
+  · intro k n hl
+    obtain ⟨kvs, fuel'', items, _, _, hs, hback⟩ := hchild k n hl
+    have hcd : lookup k (hdf2dict.hdf2dictItems sub) = some (.dict (hdf2dict.hdf2dictItems items)) := by
+      rw [hdf2dict_lookup, hs]; simp [hdf2dict]
+    obtain ⟨n', hn', hfd⟩ := hcs2 k _ hcd
+    have hfuel : Val.depth (.dict D) = Val.depth.depthList D + 1 := by simp only [Val.depth]; omega
+    rw [hfuel] at hfd
+    exact ⟨n', hn', hback _ n' hfd⟩
+
 /-- Non-vacuity of the end-to-end theorems: an LIF node is written, and reading the file is
 the LIF constructor on its four parameter arrays (which accepts them). -/
 def exLifFields : List (String × Val) :=
@@ -221,6 +440,43 @@ example : ∃ f, write "0.2.0" exLif = .ok f ∧ read f = construct "LIF" exLifF
     repeat' split at hl
     all_goals (first | cases hl | skip)
     all_goals exact backVal_array _ _ _ _ (by decide)
+
+/-- Non-vacuity of `graph_end_to_end`: Input → LIF (with a self-loop) → Output is written and
+read back (both evaluated by the kernel), its children meet `Supported`, and the theorem yields
+the same edges and the three names. -/
+def exIn : Node := Node.mk "Input" [] (typeDict "input" (Val.ofInts [2])) (typeDict "output" (Val.ofInts [2])) (.dict []) [] []
+def exOut : Node := Node.mk "Output" [] (typeDict "input" (Val.ofInts [2])) (typeDict "output" (Val.ofInts [2])) (.dict []) [] []
+def exChildren : Nodes := [("in", exIn), ("lif", exLif), ("out", exOut)]
+def exEdges : List Edge := [("in", "lif"), ("lif", "out"), ("lif", "lif")]
+
+example : ∃ f g' cs, write "0.2.0" (mkGraph exChildren exEdges) = .ok f ∧ read f = .ok g' ∧
+    g' = mkGraph cs exEdges (.dict []) ∧ (cs.map Prod.fst).Perm ["in", "lif", "out"] ∧
+    ∃ n', lookup "lif" cs = some n' ∧ ChildBack exLif n' := by
+  have hw : (write "0.2.0" (mkGraph exChildren exEdges)).toBool = true := by decide +kernel
+  have hr : ((write "0.2.0" (mkGraph exChildren exEdges)).bind read).toBool = true := by decide +kernel
+  cases hf : write "0.2.0" (mkGraph exChildren exEdges) with
+  | error e => rw [hf] at hw; cases hw
+  | ok f =>
+    rw [hf] at hr
+    cases hg : read f with
+    | error e => simp only [Except.bind, hg] at hr; cases hr
+    | ok g' =>
+      have hsup : ∀ k n, lookup k exChildren = some n → Supported n := by
+        intro k n hl
+        simp only [exChildren, lookup] at hl
+        repeat' split at hl
+        all_goals (first | cases hl | skip)
+        · exact Supported.input _ _ (Val.ofInts [2]) rfl (by intro d h; cases h)
+        · exact Supported.generic "LIF" exLifFields _ _ ⟨by decide, by decide, by decide, by decide, by decide⟩ rfl rfl
+            (by
+              intro k v hl d hv
+              simp only [exLifFields, lookup] at hl
+              repeat' split at hl
+              all_goals (first | cases hl | skip)
+              all_goals cases hv)
+        · exact Supported.output _ _ (Val.ofInts [2]) rfl (by intro d h; cases h)
+      obtain ⟨cs, h1, h2, h3⟩ := graph_end_to_end "0.2.0" exChildren exEdges _ _ (by decide) hsup f hf g' hg
+      exact ⟨f, g', cs, rfl, hg, h1, h2, h3 "lif" exLif rfl⟩
 
 /-- Non-vacuity: edges with a duplicate, a self-loop, a dotted and a non-ASCII endpoint. -/
 example : (h5Create (edgesVal [("a", "b"), ("a", "b"), ("b", "b"), ("sub.x", "é")])).map
